@@ -430,11 +430,13 @@ fn sample_payload(s: &MediaSample) -> Bytes {
 /// Push samples with `payload` into `src` until the receiving track of the `idx`-th media transceiver
 /// (same kind) of `to` yields a frame with exactly that payload, or `t` elapses.
 pub async fn rtp_roundtrip(src: &Media, to: &PeerConnection, payload: &[u8], t: Duration) -> Result<(), String> {
-    rtp_roundtrip_skipping(src, to, payload, t, None).await
+    rtp_roundtrip_skipping(src, to, payload, t, &[]).await
 }
 
-/// … ignoring samples that carry exactly `skip` (left-overs of an earlier phase); any other payload is an error
-pub async fn rtp_roundtrip_skipping(src: &Media, to: &PeerConnection, payload: &[u8], t: Duration, skip: Option<&[u8]>) -> Result<(), String> {
+/// … ignoring samples that carry exactly one of the `skip` payloads (left-overs of an earlier phase of the same media
+/// source: the concurrent pump's payload and the sequential exchange's payload, which on a slow transport such as ICE-TCP can
+/// still be queued when this exchange starts); any other payload is an error
+pub async fn rtp_roundtrip_skipping(src: &Media, to: &PeerConnection, payload: &[u8], t: Duration, skip: &[&[u8]]) -> Result<(), String> {
     let recv_track = to.get_transceivers().into_iter()
         .find(|tr| tr.kind() == src.kind)
         .and_then(|tr| tr.receiver())
@@ -450,13 +452,13 @@ pub async fn rtp_roundtrip_skipping(src: &Media, to: &PeerConnection, payload: &
         }
     });
     let want = payload.to_vec();
-    let skip = skip.map(|s| s.to_vec());
+    let skip: Vec<Vec<u8>> = skip.iter().map(|s| s.to_vec()).collect();
     let r = tokio::time::timeout(scaled(t), async {
         loop {
             match recv_track.recv().await {
                 Ok(s) => { let d = sample_payload(&s);
                     if d.as_ref() == want.as_slice() { return Ok(()); }
-                    else if skip.as_deref() == Some(d.as_ref()) { continue; }
+                    else if skip.iter().any(|k| k.as_slice() == d.as_ref()) { continue; }
                     else { return Err(format!("payload altered ({} bytes)", d.len())); } }
                 Err(e) => return Err(format!("track recv: {e:?}")),
             }
